@@ -1,6 +1,6 @@
 module github.com/gokrazy/rsync
 
-go 1.25.0
+go 1.26.8
 
 require (
 	github.com/BurntSushi/toml v1.6.0
